@@ -3,7 +3,7 @@
 import gc
 
 from vlib.common import HarnessError, Violation
-from vlib.crash import FaultAt, PointCounter, run_in_process
+from vlib.crash import WARM_UPS, FaultAt, PointCounter, run_in_process
 from vlib.runner import explore
 
 from . import _crash as cr
@@ -52,6 +52,7 @@ def run_pair(case, ctx=None):  # pylint: disable=too-many-locals,too-many-branch
         points = report['points']
         chosen, complete = cr.select_points(points, POINT_LIMIT, case['op']['a'])
         labels.append(f'op:{desc["op"]}')
+        labels += [f'warm-up:{WARM_UPS[p % 8]}' for p in desc.get('prelude', [])]
         labels.append('pair-exhaustive' if complete else 'pair-sampled')
         first_mut = next((i for i, p in enumerate(points) if p[0] in cr.MUTATING_KINDS), len(points))
         is_repack = desc['op'] in ('repack', 'repack_pack')
@@ -78,7 +79,7 @@ def run_pair(case, ctx=None):  # pylint: disable=too-many-locals,too-many-branch
                     if locks:
                         ctx.stats.label('stale-lock-removed')
                 if not returned and not is_repack:
-                    rerun = run_in_process(prep.work, prep.case, prep.model, prep.aux_model, prep.rop, PointCounter(set(), ''))
+                    rerun = run_in_process(prep.work, prep.case, prep.model, prep.aux_model, prep.rop, PointCounter(set(), ''), warm=False)
                     if rerun['status'] != 'returned':
                         raise Violation(PROP, f'rerun-{rerun["status"]}:{desc["op"]}', f'rerun after the fault cleared: {rerun.get("repr") or rerun.get("msg")} [{context}]')
                     cr.inspect_state(prep.work, PROP, prep.model, prep.candidates, prep.deleted, prep.planted, context='rerun after ' + context, complete=True)
